@@ -50,3 +50,25 @@ class CountedYieldLoop:
         n = z3.simplify(z3.If(count >= 0, count, z3.IntVal(0)))
         ctx.trace.append(("needs", n))
         pos_add(ctx, n)
+
+
+class OneStepLoop:
+    """step refinement: execute the loop body exactly once from a given state (locals installed at the loop head);
+    the outcome (how the body ended, locals afterwards) is left in ctx.ghost['step']; yields go to the driver"""
+
+    def __init__(self, state):
+        self.state = state
+
+    def run(self, I, node, frame):
+        from .interp import _Continue, _Break
+
+        frame.locals.update(self.state)
+        how = "fallthrough"
+        try:
+            yield from I.exec_block(node.body, frame)
+        except _Continue:
+            how = "continue"
+        except _Break:
+            how = "break"
+        I.ctx.ghost["step"] = {"how": how, "locals": dict(frame.locals)}
+        raise PathEnd("step")
